@@ -44,6 +44,7 @@ FixNames == {"chunk_readline",     \* chunked.py: readline after a chunk / in th
              "deflate_fallback",   \* decompression.py: raw-deflate fallback replays everything fed so far (C19 repair)
              "perm_listing",       \* processor/ftp.py: except REMOTE_ERRORS around _apply_unix_permissions (--preserve-permissions)
              "symlink_create",     \* processor/ftp.py _make_symlink: except (OSError, ValueError) around os.symlink
+             "writer_names",       \* writer.py open_file: a name that cannot be used (too long, too deep, a directory, NUL) -> ProtocolError
              "continue_refused"}   \* writer.py: a refused --continue is a ProtocolError; the handlers tolerate a response without body
 ASSUME Fixes \subseteq FixNames
 Fixed(n) == n \in Fixes
@@ -365,7 +366,8 @@ ProvokableAt(s) ==
     [] s = "r_status_5xx" -> {"ServerError"}
     [] s = "h_save_document" ->                                 \* writer.py:141 time.mktime(None): Last-Modified garbage
             IF Fixed("last_modified") THEN {} ELSE {"TypeError"}
-    [] s = "h_writer_process_response" -> {"RecursionError", "OSError"} \cup (IF Fixed("win_names") THEN {} ELSE {"ValueError"})
+    [] s = "h_writer_process_response" -> (IF Fixed("writer_names") THEN {"ProtocolError"} ELSE {"RecursionError", "OSError"})
+                                          \cup (IF Fixed("win_names") THEN {} ELSE {"ValueError"})
                                         \* writer.py:121 os.makedirs / open on a server-chosen path; path.py:263 Content-Disposition
     [] s = "h_scrape_encoding" ->                               \* string.py:104 bytes.decode('hex'): charset label
             IF Fixed("charset_codec") THEN {} ELSE {"LookupError"}
@@ -428,7 +430,7 @@ KnownSuspects ==
 \cup Unless("msdos_short", {<<"f_listing_parse", "IndexError">>, <<"fp_listing_parse", "IndexError">>})        \* MS-DOS line with < 4 fields
 \cup Unless("last_modified", {<<"h_save_document", "TypeError">>})                                            \* Last-Modified: garbage
 \cup Unless("win_names", {<<"h_request_filename", "ValueError">>, <<"h_writer_process_response", "ValueError">>})   \* finding 22
-\cup {<<"h_writer_process_response", "RecursionError">>, <<"h_writer_process_response", "OSError">>}   \* makedirs / open on a server-chosen path
+\cup Unless("writer_names", {<<"h_writer_process_response", "RecursionError">>, <<"h_writer_process_response", "OSError">>})   \* makedirs / open on a server-chosen path
 \cup Unless("charset_codec", {<<"h_scrape_encoding", "LookupError">>})                                        \* charset=hex
 \cup Unless("sitemap_gzip", {<<"h_scrape_sitemap", k>> : k \in {"EOFError", "BadGzipFile", "ZlibError"}})      \* corrupt gzip sitemap
 \cup Unless("pasv_range", {<<"f_data_connect", "OverflowError">>, <<"fp_data_connect", "OverflowError">>})   \* PASV port > 65535
